@@ -120,4 +120,153 @@ theorem decodeF_noBackslash : ∀ (s : List Char) (f : Nat), s.length ≤ f → 
       ih f (by simp at hf; omega) (fun d hd => h d (List.mem_cons_of_mem _ hd))]
     rfl
 
+/-! ### multi-line strings -/
+
+theorem splitLines_ne_nil (s : List Char) : splitLines s ≠ [] := by
+  induction s with
+  | nil => simp [splitLines]
+  | cons c rest ih =>
+    simp only [splitLines]
+    split
+    · simp
+    · split <;> simp
+
+theorem splitLines_noNL (a : List Char) (h : ∀ c, c ∈ a → c ≠ '\n') : splitLines a = [a] := by
+  induction a with
+  | nil => rfl
+  | cons c rest ih =>
+    have hc := h c (List.mem_cons_self ..)
+    simp [splitLines, hc, ih (fun d hd => h d (List.mem_cons_of_mem _ hd))]
+
+theorem splitLines_append (a r : List Char) (h : ∀ c, c ∈ a → c ≠ '\n') :
+    splitLines (a ++ '\n' :: r) = a :: splitLines r := by
+  induction a with
+  | nil => simp [splitLines]
+  | cons c rest ih =>
+    have hc := h c (List.mem_cons_self ..)
+    simp [splitLines, hc, ih (fun d hd => h d (List.mem_cons_of_mem _ hd))]
+
+def endsCR : List Char → Bool
+  | [] => false
+  | ['\r'] => true
+  | _ :: rest => endsCR rest
+
+theorem dropCR_id (l : List Char) (h : endsCR l = false) : dropCR l = l := by
+  induction l with
+  | nil => rfl
+  | cons c rest ih =>
+    cases rest with
+    | nil =>
+      by_cases hc : c = '\r'
+      · subst hc; simp [endsCR] at h
+      · simp [dropCR, hc]
+    | cons d rest' =>
+      have : endsCR (d :: rest') = false := by
+        simpa [endsCR] using h
+      simp [dropCR, ih this]
+
+theorem endsCR_append_cons (a : List Char) (c : Char) (l : List Char) :
+    endsCR (a ++ c :: l) = endsCR (c :: l) := by
+  induction a with
+  | nil => rfl
+  | cons d rest ih =>
+    cases hr : rest ++ c :: l with
+    | nil => simp at hr
+    | cons e r' => simp [List.cons_append, hr, endsCR, ← ih]
+
+theorem trimStart_blanks (ind rest : List Char) (h : ∀ c, c ∈ ind → c = ' ' ∨ c = '\t') :
+    trimStart (ind ++ '\\' :: rest) = '\\' :: rest := by
+  induction ind with
+  | nil => simp [trimStart]
+  | cons c r ih =>
+    have hc := h c (List.mem_cons_self ..)
+    have ih' := ih (fun d hd => h d (List.mem_cons_of_mem _ hd))
+    rcases hc with hc | hc <;> subst hc <;> simp [trimStart, ih']
+
+/-- conditions on one line of a multi-line literal: blanks before the marker, no line break in the
+content, no carriage return at its end (a final `\r` belongs to the line terminator) -/
+def LineOK (p : List Char × List Char) : Prop :=
+  (∀ c, c ∈ p.1 → c = ' ' ∨ c = '\t') ∧ (∀ c, c ∈ p.2 → c ≠ '\n') ∧
+    endsCR ('\\' :: p.2) = false
+
+theorem spellLine_noNL (p : List Char × List Char) (h : LineOK p) :
+    ∀ c, c ∈ spellLine p.1 p.2 → c ≠ '\n' := by
+  intro c hc
+  simp only [spellLine, List.mem_append, List.mem_cons] at hc
+  rcases hc with hc | hc | hc | hc
+  · rcases h.1 c hc with h | h <;> subst h <;> decide
+  · subst hc; decide
+  · subst hc; decide
+  · exact h.2.1 c hc
+
+theorem lowerLine (p : List Char × List Char) (h : LineOK p) :
+    stripMarker (trimStart (dropCR (spellLine p.1 p.2))) = some p.2 := by
+  have hcr : endsCR (spellLine p.1 p.2) = false := by
+    rw [spellLine, endsCR_append_cons]
+    have := h.2.2
+    cases hp : p.2 with
+    | nil => simp [endsCR]
+    | cons d r => rw [hp] at this; simpa [endsCR] using this
+  rw [dropCR_id _ hcr, spellLine, trimStart_blanks _ _ h.1]
+  rfl
+
+theorem splitLines_spell : ∀ (ls : List (List Char × List Char)), ls ≠ [] → (∀ p, p ∈ ls → LineOK p) →
+    splitLines (spellLines ls) = ls.map (fun p => spellLine p.1 p.2) := by
+  intro ls
+  induction ls with
+  | nil => intro h; exact absurd rfl h
+  | cons p rest ih =>
+    intro _ hok
+    have hp := hok p (List.mem_cons_self ..)
+    cases rest with
+    | nil =>
+      obtain ⟨i, l⟩ := p
+      simp only [spellLines, List.map]
+      exact splitLines_noNL _ (spellLine_noNL (i, l) hp)
+    | cons q rest' =>
+      obtain ⟨i, l⟩ := p
+      simp only [spellLines, List.map_cons]
+      rw [splitLines_append _ _ (spellLine_noNL (i, l) hp)]
+      have := ih (by simp) (fun r hr => hok r (List.mem_cons_of_mem _ hr))
+      simp only [List.map_cons] at this
+      rw [this]
+
+theorem dropLastEmpty_id : ∀ (ls : List (List Char)), (∀ l, l ∈ ls → l ≠ []) → dropLastEmpty ls = ls := by
+  intro ls
+  induction ls with
+  | nil => intro _; rfl
+  | cons l rest ih =>
+    intro h
+    have hl := h l (List.mem_cons_self ..)
+    cases l with
+    | nil => exact absurd rfl hl
+    | cons c l' =>
+      cases rest with
+      | nil => rfl
+      | cons m rest' =>
+        simp only [dropLastEmpty]
+        rw [ih (fun x hx => h x (List.mem_cons_of_mem _ hx))]
+
+theorem mapM_lines : ∀ (ls : List (List Char × List Char)), (∀ p, p ∈ ls → LineOK p) →
+    mapM? (fun l => stripMarker (trimStart (dropCR l))) (ls.map (fun p => spellLine p.1 p.2)) =
+      some (ls.map (·.2)) := by
+  intro ls
+  induction ls with
+  | nil => intro _; rfl
+  | cons p rest ih =>
+    intro h
+    simp only [List.map_cons, mapM?, lowerLine p (h p (List.mem_cons_self ..)),
+      ih (fun q hq => h q (List.mem_cons_of_mem _ hq))]
+
+theorem lowerMultiline_spell (ls : List (List Char × List Char)) (hne : ls ≠ [])
+    (hok : ∀ p, p ∈ ls → LineOK p) :
+    lowerMultiline (spellLines ls) = some (joinLines (ls.map (·.2))) := by
+  unfold lowerMultiline
+  rw [splitLines_spell ls hne hok, dropLastEmpty_id, mapM_lines ls hok]
+  · rfl
+  · intro l hl
+    simp only [List.mem_map] at hl
+    obtain ⟨p, _, rfl⟩ := hl
+    simp [spellLine]
+
 end Goml.StrLit
